@@ -19,14 +19,16 @@ var verifPermErr = errors.New("verif: permanent accept error")
 // vlistener returns a scripted sequence of Accept results; when the script is
 // exhausted it calls onIdle once and then blocks until closed.
 type vlistener struct {
-	script  []int // 0 temporary error, 1 permanent error, 2 connection (held open), 3 connection (peer gone at once)
-	pos     int
-	closed  chan struct{}
-	closes  int
-	conns   []*vconn
-	onIdle  func()
-	idled   bool
-	accepts int
+	script       []int // 0 temporary error, 1 permanent error, 2 connection (held open), 3 connection (peer gone at once)
+	pos          int
+	closed       chan struct{}
+	closes       int
+	conns        []*vconn
+	onIdle       func()
+	idled        bool
+	accepts      int
+	onIdleBefore func()
+	closeErr     error // returned by Close (the listener is closed all the same)
 }
 
 func (l *vlistener) Accept() (net.Conn, error) {
@@ -51,6 +53,9 @@ func (l *vlistener) Accept() (net.Conn, error) {
 	}
 	if !l.idled && l.onIdle != nil {
 		l.idled = true
+		if l.onIdleBefore != nil {
+			l.onIdleBefore()
+		}
 		l.onIdle()
 	}
 	<-l.closed
@@ -62,7 +67,7 @@ func (l *vlistener) Close() error {
 	if l.closes == 1 {
 		close(l.closed)
 	}
-	return nil
+	return l.closeErr
 }
 func (l *vlistener) Addr() net.Addr { return verifAddr{} }
 
@@ -104,6 +109,16 @@ func verif_C20_serve() {
 	s, lg := verifServer(be)
 	useShutdown := nondetBool()
 	ctxExpired := nondetBool()
+	// the first listener's Close may fail; a second listener (no script, just
+	// waiting in Accept) is served by another goroutine
+	var closeErr error
+	if nondetBool() {
+		closeErr = errors.New("verif: listener close failed")
+		l.closeErr = closeErr
+	}
+	two := nondetBool()
+	l2 := &vlistener{closed: make(chan struct{})}
+	serve2 := make(chan error, 1)
 	var stopErr, stopErr2 error
 	stopped := make(chan struct{})
 	l.onIdle = func() {
@@ -129,6 +144,13 @@ func verif_C20_serve() {
 			close(stopped)
 		}()
 	}
+	if two {
+		// registered after l: Serve(l) below appends l first
+		l.onIdleBefore = func() {
+			go func() { serve2 <- s.Serve(l2) }()
+			verifSettle()
+		}
+	}
 	err := s.Serve(l)
 	if firstPerm >= 0 {
 		verifReach("C20.permanent-error")
@@ -144,6 +166,11 @@ func verif_C20_serve() {
 		verifAssert(err == nil, "C20.serve-returns-nil-after-close")
 		verifAssert(l.pos == n, "C20.serve-survives-temporary-errors")
 		verifAssert(l.closes >= 1, "C20.listener-closed")
+		if two {
+			verifAssert(l2.closes >= 1, "C20.every-listener-closed")
+			e2 := <-serve2
+			verifAssert(e2 == nil, "C20.every-serve-returns")
+		}
 		if useShutdown && ctxExpired {
 			held := 0
 			for _, sc := range l.script {
@@ -153,12 +180,14 @@ func verif_C20_serve() {
 			}
 			if held > 0 {
 				verifAssert(stopErr == context.DeadlineExceeded, "C20.shutdown-returns-context-error")
+			} else {
+				verifAssert(stopErr == closeErr || stopErr == context.DeadlineExceeded, "C20.shutdown-result")
 				for _, c := range l.conns {
 					_ = c
 				}
 			}
 		} else {
-			verifAssert(stopErr == nil, "C20.stop-returns-nil")
+			verifAssert(stopErr == closeErr, "C20.stop-returns-first-listener-error")
 		}
 		verifAssert(stopErr2 == ErrServerClosed, "C20.second-close-reports-closed")
 		if !useShutdown {
